@@ -485,7 +485,10 @@ impl<'a> TypingOracleCtx<'a> {
     fn expr_slice_basic(&self, array: &TyBasic) -> Result<Ty, TypingNoContextError> {
         if let TyBasic::StarlarkValue(v) = array {
             v.slice()
-        } else if array.is_tuple() || array.is_list() {
+        } else if let TyBasic::Tuple(tuple) = array {
+            // A slice has any number of the elements, so it does not keep the arity.
+            Ok(Ty::tuple_of(tuple.item_ty()))
+        } else if array.is_list() {
             Ok(Ty::basic(array.dupe()))
         } else {
             Err(TypingNoContextError)
